@@ -225,6 +225,8 @@ fn on_deep(st: &Arc<Mutex<State>>, root: &str, txn: &TransactionMut, evs: &yrs::
     let mut g = st.lock().unwrap();
     *g.fired.entry(format!("observe_deep:{root}")).or_insert(0) += 1;
     capture(&mut g, txn);
+    // a deep observer receives the event of a changed descendant once
+    { let mut seen: Vec<String> = vec![]; for ev in evs.iter() { if let Some(id) = out_bid(&ev.target()) { if seen.contains(&id) { g.problems.push(format!("observe_deep({root}) received the event of {id} twice in one call")); } seen.push(id); } } }
     for ev in evs.iter() {
         let path: String = ev.path().iter().map(|p| match p { PathSegment::Key(k) => format!(".{k}"), PathSegment::Index(i) => format!("[{i}]") }).collect();
         let Some(id) = out_bid(&ev.target()) else { continue };
@@ -380,13 +382,38 @@ fn run_case(seed: u64, index: u64, rep: &mut Report, m: &mut Model) {
     let mut tag = 0u64;
     let mut remote_txns = 0;
     let debug = std::env::var("YV_DEBUG").is_ok();
+    // a quarter of the cases hold a nested array under the root map together with a weak link to it (stored in the same map): the
+    // chain of parents of the array then reaches the root map twice, directly and through the link (found by the Coq transcription
+    // of call_type_observers, Crdt/Dispatch.v: evd_at_most_once_links_refuted)
+    let linked = index % 4 == 0;
+    if linked {
+        use yrs::{Array, Map};
+        let m0 = obs[0].rep.doc.get_or_insert_map(ROOT_MAP);
+        { let mut txn = obs[0].rep.doc.transact_mut();
+          m0.insert(&mut txn, "qa", yrs::ArrayPrelim::from([yrs::Any::from(1.0)]));
+          if let Some(l) = m0.link(&txn, "qa") { m0.insert(&mut txn, "ql", l); } }
+        if let Some(a) = obs[0].rep.drain1().into_iter().next() { msgs.push((0, a)); delivered[0].insert(msgs.len() - 1); }
+        obs[0].rep.drain2();
+        sync_subscriptions(&mut obs[0]);
+        { let mut g = obs[0].st.lock().unwrap(); g.problems.clear(); }
+        script.push("r0 txn {map.qa = [1]; map.ql = link(map.qa)}".to_string());
+    }
     for step in 0..r.range(5, 24) {
         let i = r.below(n as u64) as usize;
         let cand: Vec<usize> = (0..msgs.len()).filter(|m| !delivered[i].contains(m)).collect();
         let before = actual(&obs[i].rep);
         { let mut g = obs[i].st.lock().unwrap(); g.fired.clear(); g.deep_events.clear(); g.direct_events.clear(); g.ins = None; g.del = None; g.snap = None; g.impl_events.clear(); g.intern.clear(); }
         let what;
-        if r.chance(3, 5) || cand.is_empty() {
+        let qa: Option<yrs::ArrayRef> = if linked && r.chance(1, 4) { use yrs::Map; let mm = obs[i].rep.doc.get_or_insert_map(ROOT_MAP); let t = obs[i].rep.doc.transact(); match mm.get(&t, "qa") { Some(Out::YArray(a)) => Some(a), _ => None } } else { None };
+        if let Some(a) = qa {
+            use yrs::Array;
+            tag += 1;
+            { let mut txn = obs[i].rep.doc.transact_mut(); let len = a.len(&txn); let at = r.below(len as u64 + 1) as u32; a.insert(&mut txn, at, yrs::Any::from(1000.0 + tag as f64)); }
+            what = format!("r{} txn {{map.qa.insert({})}}", i, 1000 + tag);
+            rep.count("c11_edits_inside_a_linked_nested_type");
+            if let Some(u) = obs[i].rep.drain1().into_iter().next() { msgs.push((i, u)); delivered[i].insert(msgs.len() - 1); }
+            obs[i].rep.drain2();
+        } else if r.chance(3, 5) || cand.is_empty() {
             let mut sc = vec![];
             let (u1, _) = local_txn(&obs[i].rep, &mut r, &ecfg, bytes, 4, &mut sc, &mut tag);
             what = format!("r{} txn {{{}}}", i, sc.join("; "));
